@@ -40,7 +40,7 @@ Verdict(e, s0, s1, obs) ==
     ELSE IF ~Accepts(must, e.ok, e.code) THEN "refused_with_other_error_than_illegal_function_call"
     ELSE IF ~e.ok THEN "ok"
     ELSE IF (e.op \in {"width", "screen"} /\ ~WidthOk(s0, e)) \/ s1.w # obs.w THEN "width_or_mode_change_differs"
-    ELSE IF e.op = "locate" /\ e.r # 0 /\ e.c # 0 /\ (e.obs.csrlin # e.r \/ e.obs.pos # e.c)
+    ELSE IF e.op = "locate" /\ e.r # -1 /\ e.c # -1 /\ (e.obs.csrlin # e.r \/ e.obs.pos # e.c)
          THEN "locate_did_not_move_to_requested_cell"
     ELSE IF Csrlin(s1) # e.obs.csrlin \/ Pos(s1) # e.obs.pos THEN "cursor_differs_from_reference"
     ELSE IF s1.buf # obs.buf THEN
